@@ -3,6 +3,7 @@
 package props
 
 import (
+	"context"
 	"fmt"
 	"sync"
 	"sync/atomic"
@@ -64,9 +65,43 @@ func genC07(t *rapid.T) C07Case {
 			BadVars:  rapid.IntRange(0, 2).Draw(t, "badvars") == 0,
 			Custom:   true, Consts: true, Aliases: true, VarW: 8,
 		}}
-		tree := wrapRoot(g.Program(rootTy(t)))
-		fixEmptyLists(tree)
-		u := UniverseFor(t, tree, false)
+		var tree *m.Node
+		var u *Universe
+		switch pickW(t, "progkind", 4, 2, 2) {
+		case 1: // deep operand stack (more than 16 slots), the deepest operand re-enters the program
+			need := rapid.IntRange(15, 30).Draw(t, "need")
+			tree = stackShape(rapid.IntRange(0, 5).Draw(t, "shape"), need)
+			wrapLastVar(tree, "c_re")
+			u = c09Universe(rapid.Bool().Draw(t, "reach"))
+		case 2: // large, unsorted list literals next to list variables
+			n := rapid.IntRange(95, 140).Draw(t, "biglen")
+			big := make([]int64, n)
+			for k := range big {
+				big[k] = int64((k*7919 + 13) % 1009)
+			}
+			strs := make([]string, n)
+			for k := range strs {
+				strs[k] = elemStr(big[k])
+			}
+			switch rapid.IntRange(0, 3).Draw(t, "bigkind") {
+			case 0:
+				tree = m.Op("or", m.Op("overlap", m.Const(big), m.Var("li0")), m.Var("b0"))
+			case 1:
+				tree = m.Op("and", m.Op("overlap", m.Var("ls0"), m.Const(strs)), m.Op("in", m.Var("i0"), m.Const(big)))
+			case 2:
+				tree = m.If(m.Op("in", m.Var("s0"), m.Const(strs)), m.Op("overlap", m.Var("li0"), m.Const(big)), m.Var("b0"))
+			default:
+				tree = m.Op("xor", m.Op("overlap", m.Const(strs), m.Var("ls0")), m.Op("overlap", m.Var("li1"), m.Var("li0")))
+			}
+			u = UniverseFor(t, tree, false)
+		default:
+			tree = wrapRoot(g.Program(rootTy(t)))
+			fixEmptyLists(tree)
+			if rapid.IntRange(0, 2).Draw(t, "reenter") == 0 {
+				wrapLastVar(tree, "c_re")
+			}
+			u = UniverseFor(t, tree, false)
+		}
 		c.Progs = append(c.Progs, C07Prog{U: *u, Tree: tree, Mask: rapid.IntRange(0, 15).Draw(t, "mask"), Events: pickW(t, "events", 3, 1, 1), Src: m.Render(tree)})
 	}
 	c.Seq = genC07Calls(t, np, 10, 60)
@@ -77,6 +112,31 @@ func genC07(t *rapid.T) C07Case {
 	c.Consumer = rapid.IntRange(0, 2).Draw(t, "consumer")
 	return c
 }
+
+// wrapLastVar wraps the last variable leaf of the tree (in evaluation order) in a call of op.
+func wrapLastVar(tree *m.Node, op string) {
+	var last, parent *m.Node
+	idx := -1
+	var rec func(n *m.Node)
+	rec = func(n *m.Node) {
+		for i, k := range n.Kids {
+			if k.Kind == m.KVar {
+				last, parent, idx = k, n, i
+			}
+			rec(k)
+		}
+	}
+	rec(tree)
+	if last != nil {
+		parent.Kids[idx] = m.Op(op, last)
+	}
+}
+
+func c09Universe(reach bool) *Universe {
+	return C09Case{Reach: reach, Op: "and"}.universe()
+}
+
+type reenterKey struct{}
 
 // c07Binding: binding k of a program: values, failing fetches, availability.
 func c07Binding(u *Universe, k int) (vars map[string]interface{}, fail map[string]error, avail map[string]bool) {
@@ -200,10 +260,24 @@ func checkC07(c C07Case, r *Rec) *Violation {
 	progs := make([]*prog, len(c.Progs))
 	compile := func(p *C07Prog) (*eval.Expr, *Violation) {
 		cc, _ := NewConfig(&p.U, &Log{}, Build{Mask: p.Mask, Events: p.Events, Pure: true})
+		// c_re(x) = x, but the first time it runs in an evaluation it evaluates the very
+		// program it belongs to once more, on the same goroutine, with the same fetcher
+		var self *eval.Expr
+		cc.OperatorMap["c_re"] = func(ctx *eval.Ctx, params []eval.Value) (eval.Value, error) {
+			if len(params) != 1 {
+				return nil, m.ErrCustom
+			}
+			if ctx != nil && self != nil && (ctx.Ctx == nil || ctx.Ctx.Value(reenterKey{}) == nil) {
+				inner := &eval.Ctx{VariableFetcher: ctx.VariableFetcher, Ctx: context.WithValue(context.Background(), reenterKey{}, true)}
+				_, _ = self.Eval(inner)
+			}
+			return params[0], nil
+		}
 		e, co := SafeCompile(cc, m.Render(p.Tree))
 		if co.Panic != nil || co.Err != nil {
 			return nil, Violf("C07: compile failed: %v\nsrc=%s", co, m.Render(p.Tree))
 		}
+		self = e
 		return e, nil
 	}
 	for i := range c.Progs {
@@ -239,10 +313,12 @@ func checkC07(c C07Case, r *Rec) *Violation {
 			// cross-check the isolated Eval against the reference semantics
 			if call.Op == 0 {
 				vars, fail, _ := c07Binding(&p.U, call.B)
-				ref := &m.Env{Vars: vars, Fail: fail, Custom: customModel()}
-				rv, rerr := ref.Eval(p.Tree)
-				if p.Mask&(MaskReorder|MaskFold|MaskFast) == 0 && !Agrees(pr.want[call].o, rv, rerr) {
-					return Violf("C07: isolated Eval disagrees with the reference\nsrc=%s\nengine=%v reference=%s", m.Render(p.Tree), pr.want[call].o, refString(rv, rerr))
+				if dt, err := m.ReadDump(eval.Dump(fresh)); err == nil {
+					ref := &m.Env{Vars: vars, Fail: fail, Custom: customModel(), Fast: p.Mask&MaskFast != 0}
+					rv, rerr := ref.Eval(dt)
+					if rerr != m.ErrOptionalFetch && !Agrees(pr.want[call].o, rv, rerr) {
+						return Violf("C07: Eval on an unshared program disagrees with the reference (re-entrancy included)\nsrc=%s\nconfig=%s binding=%d\nengine=%v reference=%s", m.Render(p.Tree), maskName(p.Mask), call.B, pr.want[call].o, refString(rv, rerr))
+					}
 				}
 			}
 		}
